@@ -2,7 +2,8 @@
 Line-protocol driver for the pattern model (suite `pat`).  Glue only.
 
 expression syntax (tokens separated by single spaces):
-  expr  := atom | ( <cls> [ { int* } ] [ [ atomval* ] ] [ < draw* > ] expr* )
+  expr  := atom | ( <cls> [ { int* } ] [ [ atomval* ] ] [ [[ atomval* ]] ] [ [[[ atomval* ]]] ] [ < draw* > ] expr* )
+           { } = integer registers n0..n5, [ ] = value registers v0..v2, [[ ]] = buf, [[[ ]]] = buf2
   atom  := 5 | -3 (int) | 3/8 | -5/1 (float, exact rational) | N (None) | T | F | "text | ( tup atom* )
   draw  := u:3/8 | b:10:3
   a bare atom used as an expression is the constant pattern of that value.
@@ -98,9 +99,19 @@ def parseExpr : Nat → List String → Option (Pat × List String)
         let (ns, rest1) := match rest with
           | "{" :: r => let (xs, r') := takeUntil "}" r []; (xs.filterMap String.toInt?, r')
           | r => ([], r)
-        let (vs, rest2) := match rest1 with
+        let (vs, rest2a) := match rest1 with
           | "[" :: r =>
             let (xs, r') := takeUntil "]" r []
+            (xs.filterMap (fun s => (parseAtom s).map Val.a), r')
+          | r => ([], r)
+        let (buf, rest2b) := match rest2a with
+          | "[[" :: r =>
+            let (xs, r') := takeUntil "]]" r []
+            (xs.filterMap (fun s => (parseAtom s).map Val.a), r')
+          | r => ([], r)
+        let (buf2, rest2) := match rest2b with
+          | "[[[" :: r =>
+            let (xs, r') := takeUntil "]]]" r []
             (xs.filterMap (fun s => (parseAtom s).map Val.a), r')
           | r => ([], r)
         let (ds, rest3) := match rest2 with
@@ -117,7 +128,7 @@ def parseExpr : Nat → List String → Option (Pat × List String)
               | some (k, r) => kidsLoop f r (k :: acc)
               | Option.none => Option.none
         match kidsLoop (fuel + 1) rest3 [] with
-        | some (kids, r) => some (.node c kids { n := ns, v := vs, tape := ds }, r)
+        | some (kids, r) => some (.node c kids (St.ofLists ns vs buf buf2 ds), r)
         | Option.none => Option.none
     | t :: rest => (parseAtom t).map (fun a => (Pat.const (.a a), rest))
 
